@@ -13,8 +13,10 @@ import (
 
 func init() {
 	register(&Property{
-		ID:  "C12",
-		Gen: genC12,
+		ID:    "C12",
+		Files: []string{"handler.go", "actor.go"},
+		Funcs: []string{"HandlerDef", "ActorDef", "ActorNew"},
+		Gen:   genC12,
 		Rule: "one Handler (New / NewByCh with capacity 0,1,3,8) or an Actor spawn tree (depth <= 3, New / NewByOptions) and 1..8 (thorough 1..16) sender threads each posting a numbered sequence to one or several mailboxes; " +
 			"posted functions / effects log begin, yield, end; Close at the end followed by late Post/Send; oracles: exactly-once by the fair settle horizon, no overlap per mailbox, per-sender order, " +
 			"effect receives its own actor, parent/child registry, no cross-delivery, nothing submitted after Close runs; non-trivial = >=2 senders interleaved on one mailbox; distinct = distinct context-switch signature",
@@ -193,8 +195,14 @@ func (sc *c12Scenario) Run(s *simrt.Sim) {
 			it.sub = h.Do(name, "Send", it.id, func() (interface{}, error) { a.Send(it.id); return nil, nil })
 		}
 		closeAll = func() {
-			for _, a := range actors {
+			for i, a := range actors {
+				if a.IsClosed() {
+					sc.extra = append(sc.extra, Violation{Clause: "registry", Fingerprint: "IsClosed-before-close", Detail: fmt.Sprintf("actor %d reports IsClosed() before Close", i)})
+				}
 				a.Close()
+				if !a.IsClosed() {
+					sc.extra = append(sc.extra, Violation{Clause: "registry", Fingerprint: "IsClosed-after-close", Detail: fmt.Sprintf("actor %d reports !IsClosed() after Close", i)})
+				}
 			}
 		}
 	}
